@@ -8,6 +8,11 @@ ASSUMPTIONS = [
 ]
 
 CONF = {
+    "C20": {
+        "rule": "rapid cases: a state reached from a regular genesis by 0..6 generated transactions, or (1/3) from a hostile genesis accepted by validation and initialisation (thresholds incl. 66076420 and 2^32-1, empty roles, odd-length registry entries), then 1..12 hostile inputs: (a/b) a valid message of one of the 25 types (all required per run) marshalled to the wire and mutated in <=2 fields with protowire (field dropped = absent amount/byte field, duplicated, truncated, retyped, hostile content: empty/short/long/10 kB/non-UTF-8/fold-alike strings, malformed from), executed through the real transaction pipeline (L2) or decoded and handed straight to the handler (L1, for inputs the transaction decoder would stop); (c) all 19 queries with mutated requests, hostile pagination (key+offset, huge limit/offset, reverse+key) and nil requests; (d) byte strings into both decoders; (e) CLI address strings (short, non-ASCII, non-base58, arbitrary unicode). Oracle: no panic (recover at L1/L0, SDK panic code 111222 at L2/queries). non-trivial = message/query input derived from a valid request by <=2 hostile changes; distinct by (kind, type, bytes)",
+        "quick": {"rapid": [("TestC20", 1500, 1)]},
+        "thorough": {"rapid": [("TestC20", 8000, 16)], "fuzz": [("FuzzWireMsg", 120), ("FuzzQuery", 90), ("FuzzCLIAddress", 60)]},
+    },
     "C17": {
         "rule": "(i)+(iii) rapid-generated genesis values through the module's real JSON path (AppModuleBasic.ValidateGenesis, AppModule.InitGenesis/ExportGenesis): five keyed lists of size 0..8 with deliberately colliding keys in 1/3 of cases (same key, different payload), odd attester strings, denoms differing in case, tokens/addresses of any length, optional fields present/absent, empty roles, hostile scalars; oracle: validation must reject every genesis whose lists collide under the documented keys; for accepted+initialised ones export(init(g)) = g with documented defaults, lists as multisets. (ii) rapid histories (3..30 ops) on the real chain; at every 5th step and at the end export -> import into an empty chain -> raw key/value dump must be identical. non-trivial = genesis with a collision or a round-tripped genesis with non-empty registries, resp. history whose final state has used nonces, pairs and a moved counter or a pending owner; distinct by genesis JSON resp. op sequence. The listed known finding (pending owner has no genesis field) is matched by its exact signature, counted in excluded_known and the search continues behind it.",
         "quick": {"rapid": [("TestC17Genesis", 1500, 1), ("TestC17", 200, 1)]},
@@ -105,6 +110,12 @@ CONF = {
 ALL = ["C%02d" % i for i in range(1, 21)]
 
 MANIFEST_TEXT = {
+    "C20": {
+        "technique": "structured fuzzing / PBT (rapid): wire-level mutation of valid messages and queries with protowire, executed through the real BaseApp pipeline and directly against handlers with recover(), in generated and hostile-genesis states; native go fuzz targets for wire messages, queries and CLI strings (thorough)",
+        "level": "Exploration; oracle is absence of panic only. One known finding (cosmos-sdk query.Paginate panics on reverse+key pagination) is reported as KNOWN-FINDING and excluded by exact signature.",
+        "note": "Hook: cli.ParseAddress exported under build tag verif.",
+        "ref": "DESIGN.md section 3 C20",
+    },
     "C17": {
         "technique": "property-based testing (rapid) of genesis round-trips through the module's real JSON path with a collision model as validation oracle; export/import of states reached by generated histories compared on raw KV; native go fuzzing of genesis JSON (thorough)",
         "level": "Exploration over generated genesis values and reached states. One known finding (pending owner not exported) is reported as KNOWN-FINDING and excluded by exact signature.",
